@@ -241,5 +241,43 @@ Definition from_vec {M} (maxsz : N) (table : list (entry M)) (bs : bytes) : opti
 Definition as_vec_of {M} (id_of : M -> N) (enc : M -> bytes) (m : M) : bytes :=
   enc_u16 (id_of m) ++ enc m.
 
+(** ** length framing on a stream (sockets, serial line)
+    msgs::write_vec: u32 big-endian length, then the payload (= type prefix + struct);
+    msgs::write must produce the same bytes as write_vec (as_vec m);
+    msgs::read / read_message::<T>: u32 length, check_message_length, a window of exactly that
+    many bytes which the decoder must consume completely; the rest of the stream is untouched. *)
+Definition frame (p : bytes) : bytes := enc_u32 (lenN p) ++ p.
+Definition unframe : dec_t bytes :=
+  fun bs => bind (dec_u32 bs) (fun '(n, r) => take (N.to_nat n) r).
+
+Definition read {M} (maxsz : N) (table : list (entry M)) (bs : bytes) : option (decoded M * bytes) :=
+  bind (dec_u32 bs) (fun '(n, r) =>
+    if n <? 2 then None else if maxsz <? n then None
+    else bind (take (N.to_nat n) r) (fun '(w, rest) =>
+           bind (from_vec maxsz table w) (fun m => Some (m, rest)))).
+
+(** read_message::<T>: the type must be T's *)
+Definition read_typed {A} (maxsz : N) (id : N) (dec : dec_t A) (bs : bytes) : option (A * bytes) :=
+  bind (dec_u32 bs) (fun '(n, r) =>
+    if n <? 2 then None else if maxsz <? n then None
+    else bind (take (N.to_nat n) r) (fun '(w, rest) =>
+           bind (dec_u16 w) (fun '(ty, payload) =>
+             if ty =? id then match dec payload with Some (x, []) => Some (x, rest) | _ => None end
+             else None))).
+
+(** [k] messages one after the other *)
+Fixpoint read_stream {M} (maxsz : N) (table : list (entry M)) (k : nat) (bs : bytes)
+  : option (list (decoded M) * bytes) :=
+  match k with
+  | O => Some ([], bs)
+  | S k' => match read maxsz table bs with
+            | None => None
+            | Some (m, r) => match read_stream maxsz table k' r with
+                             | None => None
+                             | Some (l, r') => Some (m :: l, r')
+                             end
+            end
+  end.
+
 Fixpoint nodupb (l : list N) : bool :=
   match l with [] => true | x :: r => negb (existsb (N.eqb x) r) && nodupb r end.
